@@ -141,10 +141,12 @@ def stepFile (toks : List String) : String :=
       else
         let text := Layout.printText gen f
         -- the reader: the grammar model on the model's own text
-        let second := match Grammar.parseFile text with
-          | some d' => Wire.encFile2 d'
-          | none => "unread"
-        toHexW (Wire.strToBytes text) ++ " " ++ second
+        let (second, fix) := match Grammar.parseFile text with
+          | some d' =>
+            -- the second print: the printer model on what the grammar model read
+            (Wire.encFile2 d', if d'.determined then (if Layout.printText gen d' == text then "same" else "differs") else "na")
+          | none => ("unread", "na")
+        toHexW (Wire.strToBytes text) ++ " " ++ second ++ " second-print=" ++ fix
 
 def intClass (o : Option Int) : String :=
   match o with
